@@ -348,7 +348,7 @@ func (e *c04Env) compile(kind string, rules []*c04Rule, fb config.FunctionOrStri
 			normalised = routing.DeepCloneRules(rules)
 		}
 		if err != nil {
-			return nil, nil, split, "opt"
+			return nil, nil, "err", "opt"
 		}
 		prog, err := dns.NewNormalizedRequestRoutingProgram(rules, fb, opts...)
 		if err != nil {
